@@ -224,7 +224,9 @@ pub fn ci_sorted_unchecked<T>(
 where
     T: PartialOrd + Clone,
 {
-    assert!(quantile > 0. && quantile < 1.);
+    if !(quantile > 0. && quantile < 1.) {
+        return Err(error::CIError::InvalidQuantile(quantile));
+    }
 
     ci_indices(confidence, sorted.len(), quantile).and_then(|indices| match indices.into() {
         (Some(lo), Some(hi)) => {
